@@ -203,6 +203,17 @@ def run(ck):
         ck.verdict(bad is None, "2", "T2-all-exits", lb, "removed=>unregister", "on the 'removed' edge every path unregisters the processed dispatcher", "the 'removed' edge can reach the next iteration without unregistering", site=lb.where(u.bb))
         ck.verdict(lb.resolve(u.args[0]) == lb.resolve(dl.pe.args[0]), "2", "T6-provenance", lb, "removed=>unregister/receiver", "the dispatcher unregistered is the one that was processed", "the removed-check unregisters a different dispatcher", site=lb.where(u.bb))
 
+    # ---- clause 2c: implicit removals (closed ping, closed channel, ended stream, timer Drop) return Remove;
+    #      every event is dispatched to the dispatcher freshly looked up for it (shared clauses)
+    from props import C01, C03, C04, C05, C10, common
+
+    C03.close_rules(ck, "2c")
+    C04.closed_rules(ck, "2c")
+    common.import_results(ck, C01, "3", "dispatch_events", "2c")
+    common.import_results(ck, C05, "5", "Timer", "2c")
+    if ck.has("stream"):
+        common.import_results(ck, C10, "6", "StreamSource", "2c")
+
     # ---- clause 3: nothing is leaked or double freed by construction -----------------------------------
     nleak = 0
     for body in f.bodies.values():
